@@ -1,12 +1,15 @@
 ---- MODULE MC_Taproot ----
 EXTENDS Taproot
-\* Huffman: every weight vector over 1..4 with up to 5 leaves
+\* Huffman: every weight vector over 1..4, and over the boundary weights, with up to 5 leaves
 Pow2(n) == 2 ^ n
 HuffOk(ws) ==
   LET ds == HuffDepths(ws)
       D(i) == (CHOOSE l \in ds : l[1] = i)[2]
       maxd == CHOOSE m \in { l[2] : l \in ds } : \A l \in ds : l[2] <= m
-  IN /\ \A i, j \in DOMAIN ws : ws[i] > ws[j] => D(i) <= D(j)
+  IN /\ \A i, j \in DOMAIN ws : ~WLe(ws[i], ws[j]) => D(i) <= D(j)
      /\ (Len(ws) > 1 => LET s == [i \in DOMAIN ws |-> Pow2(maxd - D(i))] IN FoldLeft(LAMBDA a, b : a + b, 0, s) = Pow2(maxd))
-ASSUME \A n \in 1..5 : \A ws \in [1..n -> 1..4] : HuffOk(ws)
+\* small weights, and weights at and next to u32::MAX (sums leave 32 bits), half of it, and 1
+BigWeights == { WMax, << 65535, 65534 >>, << 32768, 0 >>, << 32767, 65535 >>, W(1) }
+ASSUME \A n \in 1..5 : \A ws \in [1..n -> { W(k) : k \in 1..4 }] : HuffOk(ws)
+ASSUME \A n \in 1..5 : \A ws \in [1..n -> BigWeights] : HuffOk(ws)
 ====
